@@ -130,6 +130,20 @@ static void do_memset(int off, int ch, int n)
 
 static void do_sprintf(int n, int b, int form)
 {
+	if (form == 2 && n >= 2 && n <= 250)
+	{
+		/* formatted output with a NUL byte inside (%c of 0): the bytes b, b+1, ... wrap through 0 once */
+		int k = 1 + (int)vh_below((uint32_t)n - 1); /* position of the NUL */
+		int b0 = (256 - k) & 255;
+		char *d = pattern(b0, 1, n);
+		errno = 0;
+		int ret;
+		ARMED(ret = sprintbuf(pb, "%.*s%c%.*s", k, d, 0, n - k - 1, d + k + 1));
+		int e = errno;
+		observe(n > 127 ? "sprintf_heap" : "sprintf_stack", n, b0, 1, 0, 0, ret, ret < 0 && e == EFBIG);
+		free(d);
+		return;
+	}
 	char *d = pattern(b ? b : 65, 0, n);
 	errno = 0;
 	int ret;
@@ -258,7 +272,10 @@ static int drive(int start, int nexec, int nops)
 			case 7: case 8:
 				if (vh_below(10) == 0)
 					fault_k = 0;
-				do_sprintf(pick_size(), 33 + (int)vh_below(90), (int)vh_below(2));
+				if (vh_below(4) == 0)
+					do_sprintf(2 + (int)vh_below(249), 0, 2);
+				else
+					do_sprintf(pick_size(), 33 + (int)vh_below(90), (int)vh_below(2));
 				break;
 			case 9:
 				do_reset();
